@@ -57,8 +57,10 @@ func (m *Manager) HeaderStoreRetrieveLoop(ctx context.Context) {
 					return
 				}
 			}
+			// the cursor only moves forward: a store that is still empty (or behind the chain) must not pull it
+			// below the chain height, or the next range would start at heights the store never holds
+			lastHeaderStoreHeight = headerStoreHeight
 		}
-		lastHeaderStoreHeight = headerStoreHeight
 	}
 }
 
@@ -105,8 +107,9 @@ func (m *Manager) DataStoreRetrieveLoop(ctx context.Context) {
 					return
 				}
 			}
+			// see HeaderStoreRetrieveLoop: the cursor only moves forward
+			lastDataStoreHeight = dataStoreHeight
 		}
-		lastDataStoreHeight = dataStoreHeight
 	}
 }
 
